@@ -1,11 +1,20 @@
 #!/bin/bash
 # Runs the repository's pinned test suite in <dir> (default /repo); succeeds iff the only failures are the
-# baseline's always_fail / flaky entries. Usage: tools/repo_tests.sh [dir]
+# baseline's always_fail / flaky entries. The HTTP integration tests use real multiprocessing queues and time out when the
+# machine is oversubscribed: failures confined to tests/proxy/integration/test_http.py are re-run once, alone.
+# Usage: tools/repo_tests.sh [dir]
 D=${1:-/repo}
 cd "$D" || exit 2
-OUT=$(PYTHONPATH="$D" /venv/bin/python -m pytest -q -p no:cacheprovider --timeout=900 --continue-on-collection-errors 2>&1 | tail -15)
-echo "$OUT" | tail -6
+run() { PYTHONPATH="$D" /venv/bin/python -m pytest -q -p no:cacheprovider --timeout=${PYTEST_TIMEOUT:-240} --continue-on-collection-errors "$@" 2>&1 | tail -15; }
+OUT=$(run)
+echo "$OUT" | tail -4
 BAD=$(echo "$OUT" | grep -E '^(FAILED|ERROR)' | grep -v -e test_mitmproxy_works -e test_large_xfer_upload)
+if [ -n "$BAD" ] && [ -z "$(echo "$BAD" | grep -v 'tests/proxy/integration/test_http.py')" ]; then
+  echo "re-running tests/proxy/integration/test_http.py alone (load-sensitive)"
+  OUT2=$(run tests/proxy/integration/test_http.py)
+  echo "$OUT2" | tail -3
+  BAD=$(echo "$OUT2" | grep -E '^(FAILED|ERROR)' | grep -v -e test_mitmproxy_works)
+fi
 if [ -n "$BAD" ]; then echo "UNEXPECTED FAILURES:"; echo "$BAD"; exit 1; fi
 echo "$OUT" | grep -qE '[0-9]+ passed' || exit 1
 echo "repo tests OK (baseline failures only)"
